@@ -28,13 +28,15 @@ pub struct RawCfg {
     pub shared_layer_numbers: bool,
     /// layout / abstract views whose own name differs from the cell's, and zero-width paths (legal, rare)
     pub odd_views: bool,
+    /// leave (now and then) one instantiated cell out of `lib.cells`: it is then part of the library only through instance pointers
+    pub unlisted_cells: bool,
 }
 impl RawCfg {
     pub fn gds() -> Self {
-        RawCfg { units: vec![Units::Micro, Units::Nano, Units::Angstrom, Units::Pico], abstracts: false, annotations: false, nets: true, general_polygons: true, paths: true, max_cells: 6, max_elems: 8, right_angles_only: true, inst_names: false, hostile_layers: false, shared_layer_numbers: false, odd_views: false }
+        RawCfg { units: vec![Units::Micro, Units::Nano, Units::Angstrom, Units::Pico], abstracts: false, annotations: false, nets: true, general_polygons: true, paths: true, max_cells: 6, max_elems: 8, right_angles_only: true, inst_names: false, hostile_layers: false, shared_layer_numbers: false, odd_views: false, unlisted_cells: false }
     }
     pub fn proto() -> Self {
-        RawCfg { units: vec![Units::Micro, Units::Nano, Units::Angstrom], abstracts: true, annotations: true, nets: true, general_polygons: true, paths: true, max_cells: 6, max_elems: 8, right_angles_only: true, inst_names: true, hostile_layers: false, shared_layer_numbers: false, odd_views: true }
+        RawCfg { units: vec![Units::Micro, Units::Nano, Units::Angstrom], abstracts: true, annotations: true, nets: true, general_polygons: true, paths: true, max_cells: 6, max_elems: 8, right_angles_only: true, inst_names: true, hostile_layers: false, shared_layer_numbers: false, odd_views: true, unlisted_cells: false }
     }
 }
 
@@ -429,8 +431,12 @@ pub fn rand_raw_lib(rng: &mut Rng, cfg: &RawCfg) -> GenRaw {
     }
     let mut lib = Library::new(format!("lib{}", rng.below(1000)), *rng.pick(&cfg.units));
     lib.layers = Ptr::new(defs.layers.clone());
+    let instantiated: Vec<usize> = (0..ncells).filter(|j| deps.iter().any(|d: &Vec<usize>| d.contains(j))).collect();
+    let unlisted = if cfg.unlisted_cells && !instantiated.is_empty() && rng.chance(1, 4) { Some(*rng.pick(&instantiated)) } else { None };
     for i in order {
-        lib.cells.push(cells[i].clone());
+        if Some(i) != unlisted {
+            lib.cells.push(cells[i].clone());
+        }
     }
     GenRaw { lib, defs, deps, names }
 }
